@@ -25,3 +25,13 @@ PROPS['C12'] = dict(
     unreached=[],
     explanation='',
 )
+
+PROPS['C16'] = dict(
+    level='other',
+    contracts=['synth_engine'],
+    drivers=[],
+    assumptions=[FLOATS],
+    trusted_base=[],
+    unreached=[],
+    explanation='',
+)
